@@ -81,7 +81,14 @@ def make_case(index, rng, tier):
         fine, fine_long = 2, True
         load_delay = rng.choice([0.3, 0.6, 1.0])
         directed = True
+    die = {}
+    if fam == "stub" and rng.randrange(3) == 0:
+        # some workers die right after they were started (crash in a hook, OOM kill): also the first ones of a NEW generation, while the
+        # master is still busy replacing the old one
+        for _ in range(rng.randrange(1, 3)):
+            die[str(rng.randrange(2, 12))] = [rng.choice([0.0, 0.0, 0.05, 0.3]), rng.choice([1, 1, 2, 255])]
     return {"family": fam, "app_load_delay": load_delay, "fine_workers_only": directed, "kind": kind, "workers": workers, "hups": hups, "clients": clients,
+            "die": die,
             "wconn": rng.choice([1, 2, 10]) if kind in ("gevent", "eventlet") else 10,
             "fine": fine, "fine_long": fine_long, "bind": rng.choice(["127.0.0.1:8000", "127.0.0.1:8000", "localhost:8000"]),
             "graceful_timeout": rng.choice([2, 3, 4]), "threads": rng.randrange(1, 3),
@@ -102,9 +109,12 @@ def run(case, choices):
         sim.fine_filter = lambda t: t.proc.name.startswith("worker")        # only worker threads are pre-empted
     gt = case["graceful_timeout"]
     fam = case["family"]
-    cfg = {"workers": case["workers"], "timeout": 30, "graceful_timeout": gt, "bind": [case.get("bind", "127.0.0.1:8000")], "proc_name": "m0",
+    # (with early deaths a child can be reaped before it is registered: that phantom entry is only dropped by the timeout scan, so the
+    #  timeout is kept short enough for the pool to be whole again when it is judged)
+    cfg = {"workers": case["workers"], "timeout": 3 if case.get("die") else 30, "graceful_timeout": gt, "bind": [case.get("bind", "127.0.0.1:8000")], "proc_name": "m0",
            "pidfile": "/run/g.pid"}
-    w = master.World(sim, cfg)
+    scripts = {int(a): {"die_at": d[0], "die_how": ("exit", d[1])} for a, d in (case.get("die") or {}).items()}
+    w = master.World(sim, cfg, scripts=scripts)
     if fam == "full":
         w.cfgsrc.update({"threads": case["threads"], "keepalive": 0, "worker_connections": case.get("wconn", 10)})
         w.use_real_workers(case["kind"])
